@@ -3951,6 +3951,13 @@ func transformFunction(token Token) (pr.SDimensions, error) {
 		if name == "translate" && isAllLengths {
 			return pr.SDimensions{String: name, Dimensions: lengths}, nil
 		}
+		if name == "skew" { // skew( <angle> , <angle> )
+			angleX, okX := getAngle(args[0])
+			angleY, okY := getAngle(args[1])
+			if okX && okY {
+				return pr.SDimensions{String: "skew", Dimensions: []pr.Dimension{pr.FToD(pr.Fl(angleX)), pr.FToD(pr.Fl(angleY))}}, nil
+			}
+		}
 	case 6:
 		if name == "matrix" && isAllNumber {
 			return pr.SDimensions{String: name, Dimensions: values}, nil
